@@ -150,15 +150,23 @@ func run(t *testing.T, tape *simrt.Tape) *hx.Outcome {
 				return
 			}
 			dm.FuseFailDen = []int{0, 0, 6}[s.Tape.Draw("cfg.real", 3)]
-			fs.Inner = dm.FS
+			ca := &checkAudit{s: s, dm: dm, valid: time.Duration(fcfg.BlobConfig.ValidInterval) * time.Second}
+			fs.Inner = ca
 			if rcfg.FaultDen > 0 {
-				// connectivity loss and recovery while the clients work
+				// connectivity loss and recovery while the clients work; sometimes the source lookup has
+				// nothing to offer during the outage either
 				s.Go("network", func(t *simrt.Task) {
 					for i := 0; i < 1+s.Tape.Draw(t.Label, 3) && !fs.Quiet; i++ {
 						t.Sleep(time.Duration(1+s.Tape.Draw(t.Label, 20)) * time.Second)
-						reg.Down = !fs.Quiet
+						if fs.Quiet {
+							return
+						}
+						reg.Down, ca.downAt = true, s.Now()
+						ca.epoch++
+						dm.NoSources = s.Tape.Draw(t.Label, 2) == 0
 						t.Sleep(time.Duration(1+s.Tape.Draw(t.Label, 30)) * time.Second)
-						reg.Down = false
+						reg.Down, dm.NoSources = false, false
+						ca.epoch++
 					}
 				})
 			}
@@ -224,6 +232,9 @@ func run(t *testing.T, tape *simrt.Tape) *hx.Outcome {
 				n := 3 + dr(7)
 				for i := 0; i < n && !s.Failed(); i++ {
 					key := fmt.Sprintf("c%dk%d", k, i)
+					if realBackend && s.Tape.Draw("idle:"+t.Label, 4) == 0 {
+						t.Sleep(time.Duration(1+s.Tape.Draw("idle:"+t.Label, 15)) * time.Second) // outages come and go meanwhile
+					}
 					switch op := dr(12); {
 					case op < 4: // remote-snapshot path; targets are shared between clients so that they race
 						target := fmt.Sprintf("layer%d", dr(4))
@@ -428,6 +439,31 @@ func run(t *testing.T, tape *simrt.Tape) *hx.Outcome {
 	}
 	out.Sample = map[string]any{"clients": nTasks, "async_remove": async, "backend_fail_den": failDen, "disk_fault_den": diskFaultDen, "base_chain": nBase, "log_tail": tailN(res.LogTail, 30)}
 	return out
+}
+
+// checkAudit sits between the recorder and the real filesystem: a Check of a layer that is not fully
+// cached must not report success when the registry has been unreachable, without interruption, for
+// longer than the connectivity-check interval (no earlier success can still be valid) and still is.
+type checkAudit struct {
+	s      *simrt.Sim
+	dm     *common.Daemon
+	valid  time.Duration
+	downAt time.Duration
+	epoch  int
+}
+
+func (c *checkAudit) Mount(ctx context.Context, mp string, labels map[string]string) error {
+	return c.dm.FS.Mount(ctx, mp, labels)
+}
+func (c *checkAudit) Unmount(ctx context.Context, mp string) error { return c.dm.FS.Unmount(ctx, mp) }
+func (c *checkAudit) Check(ctx context.Context, mp string, labels map[string]string) error {
+	e0, down0, since := c.epoch, c.dm.Reg.Down, c.s.Now()-c.downAt
+	f, sz, ok := c.dm.Fetched(mp)
+	err := c.dm.FS.Check(ctx, mp, labels)
+	if err == nil && ok && f < sz && down0 && c.dm.Reg.Down && e0 == c.epoch && since > c.valid+2*time.Second {
+		c.s.Fail("check-ok-while-unreachable", "Check of the remote layer on %s reported success although the registry had been unreachable for %v when it began (connectivity-check interval %v), still was when it returned, and the layer is not fully cached (%d of %d bytes; source lookup empty: %v): Mounts would be handed out for a chain whose remote layer cannot be reached", common.RelSnap(mp), since, c.valid, f, sz, c.dm.NoSources)
+	}
+	return err
 }
 
 func tailN(l []string, n int) []string {
